@@ -215,7 +215,7 @@ def build_inputs(con, engine):
         env[a.kwarg.arg] = ConstDict([])
     # extra ghost inputs declared by the contract (e.g. memory contents)
     for n, sh in con.params.items():
-        if n not in env and n.startswith("g_"):
+        if n not in env:        # closure variables of a nested function / ghost inputs
             v, f = fresh(sh, n)
             env[n] = v
             facts.extend(f)
